@@ -117,3 +117,27 @@ impl Findings {
         }
     }
 }
+
+/// Diagnostic table (`mc-validate SPELLINGS`): verdict of every base under each
+/// wire-spelling deviation, i.e. which spellings the real decoders accept.
+pub fn spellings(_ctx: Ctx) -> ! {
+    crate::quiet::silence_stderr();
+    let dims = ["aux", "auxform", "outerform", "bodyform", "outsform", "feewidth", "witsform", "vkeystag"];
+    let mut rows = vec![];
+    for base in crate::bases::bases() {
+        for d in crate::devs::deviations(&base, 0) {
+            if !dims.contains(&d.dim.as_str()) || d.name == "aux=present" {
+                continue;
+            }
+            let mut c = base.clone();
+            d.apply(&mut c);
+            let v = exec::run(&crate::txlab::build(&c));
+            rows.push(format!("{:45} {:28} {}", base.label(), d.name, v.class()));
+        }
+    }
+    crate::quiet::restore_stderr();
+    for r in rows {
+        println!("{r}");
+    }
+    std::process::exit(0)
+}
